@@ -897,6 +897,8 @@ type c02Job struct {
 	First  bool  `json:"first,omitempty"` // first order of its program (the program is counted once)
 	// Churn, when not nil: the job is a churn case (c02_churn.go) instead of a program for gExec.
 	Churn *c02Churn `json:"churn,omitempty"`
+	// Rel, when not nil: the job is a relation case (c02_rel.go).
+	Rel *c02Rel `json:"rel,omitempty"`
 }
 
 // MarshalJSON leaves the (empty) program out of a churn case, so that its replay input is the churn alone.
@@ -905,6 +907,11 @@ func (j c02Job) MarshalJSON() ([]byte, error) {
 		return json.Marshal(struct {
 			Churn *c02Churn `json:"churn"`
 		}{j.Churn})
+	}
+	if j.Rel != nil {
+		return json.Marshal(struct {
+			Rel *c02Rel `json:"rel"`
+		}{j.Rel})
 	}
 	type plain c02Job
 	return json.Marshal(plain(j))
@@ -926,6 +933,9 @@ func init() {
 		}
 		if job.Churn != nil {
 			return c02ChurnRun(*job.Churn, job, scratch)
+		}
+		if job.Rel != nil {
+			return c02RelRun(*job.Rel, job, scratch)
 		}
 		return c02Summarise(gExec(&job.Case), job, modelOK)
 	}
@@ -1096,7 +1106,7 @@ func c02SizeBucket(n int) string {
 
 func checkC02(c *lib.Ctx) {
 	r := c.R
-	r.Rule = "options: every program is generated for and run on a server started with an option combination dealt from a shuffled deck — os-backed: ReadOnly() x WithServerWorkingDirectory x WithAllocator; request server: WithStartDirectory x WithRSAllocator x handler set, where the handler set lacks optional interfaces (quick: none, each of StatVFSFileCmder / PosixRenameFileCmder / LstatFileLister / OpenFileWriter / ReadlinkFileLister / RealPathFileLister alone, RealPath in its legacy signature, all lacking; thorough: all 96 combinations). On a read-only server handles are opened for reading only, the WRITEs go to those, and every modifying request (WRITE, SETSTAT, FSETSTAT, REMOVE, MKDIR, RMDIR, RENAME, SYMLINK, posix-rename, hardlink, OPEN with write/creat/trunc) must be answered PERMISSION_DENIED, once, in its turn, without any modifying call on an opened file, while the calls of the served requests around it are held; with a working / start directory the paths are sent relative (one in four absolute); without StatVFSFileCmder statvfs must be answered OP_UNSUPPORTED without a handler call, without the other interfaces the request must reach exactly the fallback method (Filecmd as Rename, Filelist as Stat / Readlink, Filewrite) once and its reply must follow that call's result; hand-written pipelines for read-only servers (18, under working directory x allocator) and for the ten handler sets (6, all orders up to 12 / 120). programs: hand-written depth-4 pipelines, PRNG pipelines of 4…6 mutually independent requests (all 24/120/720 completion orders) and PRNG-drawn pipelines (depth 1…30) over 27 request kinds on open, closed-before, never-issued and wrong-kind handles and on existing/missing paths, ids sequential, descending, random or all equal; every instrumented call (request server: all handler methods; os-backed server: ReadAt/WriteAt/Stat/Readdir/Chmod of the opened files) is held on a gate and the harness opens the gates in a chosen order: ALL feasible completion orders for the small programs, PRNG-chosen orders (uniform, fifo, lifo, earliest-held-longest) for the deep ones, plus un-gated pipelined runs. Big-reply family: servers started with WithAllocator / WithRSAllocator on or off and WithMaxTxPacket / WithRSMaxTxPacket in {default, 65536, 262131, 262132 (longest DATA payload inside / outside an allocator page), 262135, 262136 (DATA reply frame of exactly / one over 256 KiB), 262144, 524288}; five hand-written pipelines per configuration (all completion orders in thorough, the first 6 in quick, on 8 of the 16 configurations) and PRNG pipelines on all 16 in which one request in five has a reply of the largest size: READ of max-tx-1, max-tx, max-tx+1, the page/frame boundary lengths, 300000 and 2^32-1 bytes on a 600000-byte file, READDIR of 120 names of 1400 bytes (request server) / 130 names of 250 bytes (os-backed), REALPATH and READLINK of paths of 131060, 131061 (NAME reply just fits 256 KiB), 131062, 140000, 200000 and 262129 bytes, READLINK of a 4000-byte target, mixed with the ordinary requests. Handles named before their HANDLE reply: both servers number their handles 1, 2, 3 …, so requests (READ, WRITE, FSTAT, FSETSTAT, READDIR, CLOSE) name the number that an OPEN / OPENDIR of the same pipeline is about to be given, one given later, or one never given — behind succeeding and failing OPENs of every kind, each on an object of its own; ten hand-written pipelines (requests sent one by one, so that the READ / WRITE reaches a read/write worker while the command worker is inside the held handler of that OPEN; first 6 / all orders) and PRNG pipelines (one request in four of this family; three in four sent one by one), gated and un-gated. For such a request nothing but the count, id, order and legal type of its reply is judged (the calls it may make on the freshly opened object are logged, never held, never counted); a crash of the server is reported with the case. Volume (churn): per server, with the allocator off and on, ONE un-gated session kept busy for 4 s (thorough: 40 s) with batch after batch of 8…24 READs (1…4096 bytes, content checked) and WRITEs on long-lived handles and 1…3 command requests among them — OPEN, OPENDIR and CLOSE of other handles, FSTAT, STAT — every reply of a batch awaited (count, order, id, legal type, success) before the next batch; tens of thousands of crossings of the read/write lane and the command lane, for races between them whose window is a few instructions wide; these cases run side by side with the others. A case = (server, configuration, program, completion order); non-trivial = at least two calls were held at the same time, a failing request is in the stream, or a reply longer than a default server's longest stands among other replies; distinct by (configuration, options, program shape, read lengths, order)"
+	r.Rule = "options: every program is generated for and run on a server started with an option combination dealt from a shuffled deck — os-backed: ReadOnly() x WithServerWorkingDirectory x WithAllocator; request server: WithStartDirectory x WithRSAllocator x handler set, where the handler set lacks optional interfaces (quick: none, each of StatVFSFileCmder / PosixRenameFileCmder / LstatFileLister / OpenFileWriter / ReadlinkFileLister / RealPathFileLister alone, RealPath in its legacy signature, all lacking; thorough: all 96 combinations). On a read-only server handles are opened for reading only, the WRITEs go to those, and every modifying request (WRITE, SETSTAT, FSETSTAT, REMOVE, MKDIR, RMDIR, RENAME, SYMLINK, posix-rename, hardlink, OPEN with write/creat/trunc) must be answered PERMISSION_DENIED, once, in its turn, without any modifying call on an opened file, while the calls of the served requests around it are held; with a working / start directory the paths are sent relative (one in four absolute); without StatVFSFileCmder statvfs must be answered OP_UNSUPPORTED without a handler call, without the other interfaces the request must reach exactly the fallback method (Filecmd as Rename, Filelist as Stat / Readlink, Filewrite) once and its reply must follow that call's result; hand-written pipelines for read-only servers (18, under working directory x allocator) and for the ten handler sets (6, all orders up to 12 / 120). programs: hand-written depth-4 pipelines, PRNG pipelines of 4…6 mutually independent requests (all 24/120/720 completion orders) and PRNG-drawn pipelines (depth 1…30) over 27 request kinds on open, closed-before, never-issued and wrong-kind handles and on existing/missing paths, ids sequential, descending, random or all equal; every instrumented call (request server: all handler methods; os-backed server: ReadAt/WriteAt/Stat/Readdir/Chmod of the opened files) is held on a gate and the harness opens the gates in a chosen order: ALL feasible completion orders for the small programs, PRNG-chosen orders (uniform, fifo, lifo, earliest-held-longest) for the deep ones, plus un-gated pipelined runs. Big-reply family: servers started with WithAllocator / WithRSAllocator on or off and WithMaxTxPacket / WithRSMaxTxPacket in {default, 65536, 262131, 262132 (longest DATA payload inside / outside an allocator page), 262135, 262136 (DATA reply frame of exactly / one over 256 KiB), 262144, 524288}; five hand-written pipelines per configuration (all completion orders in thorough, the first 6 in quick, on 8 of the 16 configurations) and PRNG pipelines on all 16 in which one request in five has a reply of the largest size: READ of max-tx-1, max-tx, max-tx+1, the page/frame boundary lengths, 300000 and 2^32-1 bytes on a 600000-byte file, READDIR of 120 names of 1400 bytes (request server) / 130 names of 250 bytes (os-backed), REALPATH and READLINK of paths of 131060, 131061 (NAME reply just fits 256 KiB), 131062, 140000, 200000 and 262129 bytes, READLINK of a 4000-byte target, mixed with the ordinary requests. Handles named before their HANDLE reply: both servers number their handles 1, 2, 3 …, so requests (READ, WRITE, FSTAT, FSETSTAT, READDIR, CLOSE) name the number that an OPEN / OPENDIR of the same pipeline is about to be given, one given later, or one never given — behind succeeding and failing OPENs of every kind, each on an object of its own; ten hand-written pipelines (requests sent one by one, so that the READ / WRITE reaches a read/write worker while the command worker is inside the held handler of that OPEN; first 6 / all orders) and PRNG pipelines (one request in four of this family; three in four sent one by one), gated and un-gated. For such a request nothing but the count, id, order and legal type of its reply is judged (the calls it may make on the freshly opened object are logged, never held, never counted); a crash of the server is reported with the case. Volume (churn): per server, with the allocator off and on, ONE un-gated session kept busy for 4 s (thorough: 40 s) with batch after batch of 8…24 READs (1…4096 bytes, content checked) and WRITEs on long-lived handles and 1…3 command requests among them — OPEN, OPENDIR and CLOSE of other handles, FSTAT, STAT — every reply of a batch awaited (count, order, id, legal type, success) before the next batch; tens of thousands of crossings of the read/write lane and the command lane, for races between them whose window is a few instructions wide; these cases run side by side with the others. Argument relations: un-gated programs of 1…14 requests whose arguments stand in a RELATION — the two paths of RENAME / posix-rename / SYMLINK / hardlink in 20 relations (the same string, the same object relative and absolute / in two spellings / through a symbolic link, new inside old, old inside new, through a file, file onto file / directory, directory onto file / empty / non-empty directory, missing source, both missing, fresh target, missing parent, the empty string, a symbolic link — dangling, to itself — as source, the root of the tree, a name of 256 bytes), 24 single-path kinds (STAT, LSTAT, OPENDIR, READLINK, REALPATH, statvfs, REMOVE, RMDIR, MKDIR, SETSTAT with no attribute / size 0 / size / mode / times / owner / all, OPEN with eight flag sets) on 19 kinds of object (files and directories that a handle of the session is open on, entries of the open directory, links, missing paths, paths below a file, the tree root, the empty string, an over-long name) in ten spellings (./p, p/, p/., dir/../p, p//q, absolute, …), and every handle request (READ with length 0, at / across / beyond the end, longer than max-tx, offsets 2^63-1, 2^63, 2^64-1; WRITE with length 0, at and beyond the end; FSTAT, FSETSTAT with each attribute set and with none, READDIR, fsync, CLOSE) on read, write, read-write, append, through-a-link, directory, empty-directory, closed, never-issued, empty and over-long handles; every (kind, relation / object / handle and edge value) at least once per server and working-directory setting, shuffled into programs, 23 hand-written sequences (the object of an open handle removed, renamed, truncated; double CLOSE; MKDIR twice; READDIR past the end; links in a circle …), and PRNG mixes; on a fresh os-backed Server (tree of its own inside the scratch area) and a fresh RequestServer (sftp.InMemHandler, same tree), with / without working or start directory, allocator on / off, sent in one write or frame by frame; behind every program a REALPATH, a STAT, the CLOSE of all seven handles and an LSTAT; judged: one reply per request, in order, with its id, of a legal type, nothing more, Serve returns; a failing program is re-run reduced to the request at fault. A case = (server, configuration, program, completion order); non-trivial = at least two calls were held at the same time, a failing request is in the stream, a reply longer than a default server's longest stands among other replies, or the case is a relation case; distinct by (configuration, options, program shape, read lengths, order)"
 	thorough := c.Tier == "thorough"
 	c02Cfg = gCurCfg(c, "pipe", c02Cfg)
 	modelOK := gProbeModel(c, "c02.run "+c02Cfg+" -")
@@ -1109,6 +1119,9 @@ func checkC02(c *lib.Ctx) {
 		if j.Churn != nil {
 			return j.Churn.Server, j
 		}
+		if j.Rel != nil {
+			return j.Rel.Server, j
+		}
 		return j.Case.Prog.Server, j.Case
 	}
 
@@ -1118,6 +1131,7 @@ func checkC02(c *lib.Ctx) {
 			Case     *gCase    `json:"case"`
 			Requests string    `json:"requests"`
 			Churn    *c02Churn `json:"churn"`
+			Rel      *c02Rel   `json:"rel"`
 		}
 		if err := lib.ReadReplay(c.Replay, &in); err != nil {
 			r.Fail(lib.Failure{Kind: "tie", Key: "replay", What: err.Error()})
@@ -1134,6 +1148,9 @@ func checkC02(c *lib.Ctx) {
 		one := c02Job{Case: cs}
 		if in.Churn != nil {
 			one = c02Job{Churn: in.Churn}
+		}
+		if in.Rel != nil {
+			one = c02Job{Rel: in.Rel}
 		}
 		sums := gRunBatches(c, "c02", []json.RawMessage{gJSON(one)}, 1, modelOK, describe)
 		lines, impl := gMerge(r, sums, 4)
@@ -1171,6 +1188,19 @@ func checkC02(c *lib.Ctx) {
 	for _, server := range []string{"rs", "os"} {
 		for _, alloc := range []bool{false, true} {
 			jobs = append(jobs, gJSON(c02Job{Churn: &c02Churn{Server: server, Alloc: alloc, Ms: churnMs, Seed: c.Rand.Int63()}}))
+		}
+	}
+	// ARGUMENT RELATIONS (c02_rel.go): request kinds x how their arguments relate to each other and to the session.
+	{
+		reps, allSpellings, nRandom := 2, false, 150
+		if thorough {
+			reps, allSpellings, nRandom = 12, true, 6000
+		}
+		for _, server := range []string{"os", "rs"} {
+			for _, rl := range c02RelJobs(c.Rand, server, reps, allSpellings, nRandom) {
+				rl := rl
+				jobs = append(jobs, gJSON(c02Job{Rel: &rl}))
+			}
 		}
 	}
 	for _, server := range []string{"rs", "os"} {
